@@ -276,6 +276,52 @@ def h_plot_bins():
     return fn
 
 
+def h_plot_axes():
+    """Every diagram x every -x dimension (x -q / -agg variants) on the ordinary dataset."""
+    extra = [[], ["-q", "0.1,0.9"], ["-agg", "median"], ["-simple"]]
+
+    def fn(S):
+        from symx import mplstub
+        drv = load.modules["verif.driver"]
+        inp = load.modules["verif.input"]
+        out = load.modules["verif.output"]
+        util = load.modules["verif.util"]
+        S.allow_realize(True)
+        S.messages_may_format_numbers()
+        name = ALL_DIAGRAMS[S.choose("diagram", len(ALL_DIAGRAMS))]
+        axis = AXES[S.choose("axis", len(AXES))]
+        x = extra[S.choose("extra", len(extra))]
+        ins = build_inputs(S, False, False, flags=False)
+        files = {"A.txt": ins[0], "B.txt": ins[1]}
+        stub = mplstub.Pyplot()
+        saved = (inp.get_input, out.mpl, util.mpl)
+        inp.get_input = lambda f: files[f]
+        out.mpl = stub
+        util.mpl = stub
+        argv = ["verif", "A.txt", "B.txt", "-m", name, "-f", "out.png", "-x", axis] + x
+        code, crash = None, None
+        try:
+            try:
+                drv.run(argv)
+            except SystemExit as e:
+                code = e.code if e.code is not None else 0
+            except Exception as e:
+                from symx.explore import _where
+                import traceback
+                text = "%s: %s" % (type(e).__name__, e)
+                frames = traceback.extract_tb(e.__traceback__)
+                if any("mplstub" in fr.filename for fr in frames) or "Generic" in text or "_CallableOrObject" in text:
+                    S.note("stub limitation: %s" % text[:100])
+                    return
+                crash = "%s@%s" % (type(e).__name__, _where(e.__traceback__))
+        finally:
+            inp.get_input, out.mpl, util.mpl = saved
+        what = " ".join(argv[3:])
+        S.prove("no-unhandled-exception-before-the-draw-calls", crash is None, detail="%s: %s" % (what, crash))
+        S.prove("error-exits-are-non-zero", code is None or code != 0, detail=what)
+    return fn
+
+
 def harnesses(tier):
     thorough = tier == "thorough"
     variants = [[], ["-b", "below=", "-r", "1"], ["-agg", "median"], ["-r", "1,3", "-b", "within"]]
@@ -288,6 +334,7 @@ def harnesses(tier):
     hs.append(Harness("driver_plot", h_plot(len(PLOT_TYPES) if thorough else 3, pvariants, with_missing_time=thorough),
                       "every diagram and output type up to the pyplot boundary (recording stub)", path_budget_s=60, max_paths=400000))
     hs.append(Harness("driver_plot_bins", h_plot_bins(), "every diagram x 8 bin types x 1/2/4 thresholds up to the pyplot boundary", path_budget_s=60))
+    hs.append(Harness("driver_plot_axes", h_plot_axes(), "every diagram x 19 -x dimensions x (default, -q, -agg median, -simple) up to the pyplot boundary", path_budget_s=60))
     if thorough:
         hs.append(Harness("driver_csv_text.tiny", h_csv(len(AXES), variants, small=True), "single time, single lead time, single location"))
     return hs
